@@ -635,7 +635,7 @@ func errorPropagated(fn *ssa.Function, after ssa.Instruction, r ssa.Value) (bool
 					} else if isR(bin.Y) {
 						other = bin.X
 					}
-					if other != nil && isSentinel(other) {
+					if other != nil && isSentinel(other) && sentinelMayStopHere(fn, other) {
 						if bin.Op == token.EQL {
 							visit(b.Succs[1], 0)
 						} else {
@@ -646,7 +646,7 @@ func errorPropagated(fn *ssa.Function, after ssa.Instruction, r ssa.Value) (bool
 				}
 				if call, isCall := x.Cond.(*ssa.Call); isCall {
 					if sc := call.Call.StaticCallee(); sc != nil && sc.String() == "errors.Is" && len(call.Call.Args) == 2 &&
-						isR(ir.Strip(call.Call.Args[0])) && isSentinel(ir.Strip(call.Call.Args[1])) {
+						isR(ir.Strip(call.Call.Args[0])) && isSentinel(ir.Strip(call.Call.Args[1])) && sentinelMayStopHere(fn, ir.Strip(call.Call.Args[1])) {
 						visit(b.Succs[1], 0) // not the sentinel: keep looking; the sentinel edge is the stop protocol
 						return
 					}
@@ -1218,4 +1218,25 @@ func sprintfThroughHelpers(v ssa.Value, depth int) (*ssa.Call, map[*ssa.Paramete
 		v = ir.Origin(rets[0].Results[0])
 	}
 	return nil, nil
+}
+
+// sentinelMayStopHere: converting "err is the sentinel" into a nil return is
+// the documented stop protocol only where the sentinel ends its journey: a
+// sentinel the repository itself produces (ErrNoMoreDiffs) is consumed by its
+// driver; a sentinel only user callbacks produce (ErrIterDone) must travel
+// up to the exported API function — an inner level that swallows it makes the
+// outer levels carry on.
+func sentinelMayStopHere(fn *ssa.Function, sentinel ssa.Value) bool {
+	ld, ok := sentinel.(*ssa.UnOp)
+	if !ok {
+		return true
+	}
+	g, ok := ld.X.(*ssa.Global)
+	if !ok {
+		return true
+	}
+	if currentFacts != nil && currentFacts.sentinelProduced(g) {
+		return true
+	}
+	return fn.Parent() == nil && fn.Object() != nil && fn.Object().Exported()
 }
